@@ -503,6 +503,7 @@ class Machine:
         pass
     i_endbr64 = i_nop
     i_pause = i_nop
+    i_prefetcht0 = i_prefetcht1 = i_prefetcht2 = i_prefetchnta = i_prefetchw = i_nop      # hints: no architectural access, never fault
     i_vzeroupper_ = None
 
     def i_vzeroupper(self, i, ops):
